@@ -50,7 +50,8 @@ func c10Documents(tier string) []c10Doc {
 	leaves := reducedLeaves()
 	for ci, ct := range ctxs {
 		for li, lf := range leaves {
-			if tier != "thorough" && (li+ci)%4 != 0 {
+			// quick: a fixed quarter of the (context, leaf) grid, plus every leaf under the two-hop alias contexts
+			if tier != "thorough" && (li+ci)%4 != 0 && !strings.HasPrefix(ct.Name, "ref2") {
 				continue
 			}
 			b := &defBuilder{name: "In", aux: map[string]J{}}
